@@ -27,8 +27,8 @@ KINDS = xf.LINEAR_KINDS + xf.SCAT_KINDS
 def plan(tier):
     if tier == 'quick':
         return [{'n': 90} for _ in range(8)]
-    units = [{'n': 200, 'kind': k} for k in KINDS]
-    units += [{'n': 700} for _ in range(16)]
+    units = [{'n': 1500, 'kind': k} for k in KINDS]
+    units += [{'n': 5000} for _ in range(16)]
     return units
 
 
@@ -92,6 +92,13 @@ def run_case(case):
     x = core.make(case['rx'], [N, C, tin])
     if case['view'] == 'expanded_batch':
         x = np.repeat(x[:1], N, axis=0)
+    if is_scat and core.maxabs(x) > 1e15:
+        # the magnitude squares its operand: beyond ~1e18 the float32 intermediates overflow whatever the
+        # implementation; keep the huge-dynamic-range shape of the input but bring it into float32's squared range
+        x = x * (1e15 / core.maxabs(x))
+        pre_label = 'rescaled_below_f32_square_overflow'
+    else:
+        pre_label = None
     x32 = x.astype(np.float32)
     if not np.all(np.isfinite(x32)):
         return r.skip('input overflows float32')
@@ -99,7 +106,7 @@ def run_case(case):
     mx = core.maxabs(x64)
     nz = np.abs(x64[x64 != 0])
     wide = nz.size > 0 and nz.max() / nz.min() >= 1e6
-    r.label(kind, 'view_' + case['view'], 'strided_view' if case['view'] != 'contiguous' else None,
+    r.label(kind, pre_label, 'view_' + case['view'], 'strided_view' if case['view'] != 'contiguous' else None,
             'converted_module' if conv != 'none' else None, 'convert_' + conv if conv != 'none' else None,
             'dynamic_range>=1e6' if wide else None, 'kind_' + case['rx']['kind'])
     r.nontrivial = bool(wide or case['view'] != 'contiguous' or conv != 'none')
